@@ -193,7 +193,7 @@ def loc_class(loc, crate_dir):
         return "repo"
     if "/models/" in apath:
         return "model"
-    if "/rehost/" in apath or "/sliced" in apath:
+    if "/gen/" in apath or "/rehost/" in apath or "/sliced" in apath:
         return "repo"  # re-hosted / sliced copies of /repo files
     if apath.startswith(WORK) or apath.startswith(VERIF):
         return "harness"
@@ -239,7 +239,11 @@ def run_harness(h, slot, logs_dir):
     cmd = ["cargo", "kani", "--harness", find_harness_path(h), "--exact",
            "--target-dir", target_dir(h.crate, slot), "-Z", "stubbing"]
     cmd += list(gen.crate_kani_flags(h.crate))
-    rc, timed_out, wall = run_cmd(cmd, crate_workdir(h.crate), h.timeout, h.mem_gb, log_path)
+    import fcntl
+    os.makedirs(os.path.dirname(target_dir(h.crate, slot)), exist_ok=True)
+    with open(target_dir(h.crate, slot) + ".lock", "w") as lk:
+        fcntl.flock(lk, fcntl.LOCK_EX)  # two property checks running at once share the slot target dirs
+        rc, timed_out, wall = run_cmd(cmd, crate_workdir(h.crate), h.timeout, h.mem_gb, log_path)
     text = open(log_path, errors="replace").read()
     r.log_path = log_path
     r.rc, r.timed_out, r.wall = rc, timed_out, wall
@@ -281,6 +285,9 @@ def classify(r, text):
             r.verdict, r.reason = "inconclusive", "twin harness (must fail) passed: pipeline or harness is vacuous"
             return
         unsat = [c for c in covers if c["status"] != "SATISFIED"]
+        if covers and h.allow_unsat_covers and len(unsat) == len(covers):
+            r.verdict, r.reason = "inconclusive", "vacuity: none of the cover witnesses is satisfiable"
+            return
         if unsat and not h.allow_unsat_covers:
             r.verdict = "inconclusive"
             r.reason = "vacuity: cover not satisfied: " + "; ".join(c["desc"] for c in unsat[:3])
@@ -532,14 +539,32 @@ def main():
     for r in results:
         if r.verdict == "inconclusive":
             inconclusive.append(f"{r.h.name}: {r.reason}")
-        if r.verdict != "candidate":
-            continue
+    cands = [r for r in results if r.verdict == "candidate"]
+
+    def do_replay(r):
         if r.h.kind == "smt":
             import e3
             ok, rpath, detail = e3.make_replay(r, pid, logs_dir)
         else:
             ok, rpath, detail = make_replay(r, pid, r.slot, logs_dir)
         r.replay = {"reproduced": ok, "path": rpath, "detail": detail}
+        print(f"[{time.time()-t_start:6.0f}s] replay {r.h.name}: {'reproduced' if ok else 'NOT reproduced' if ok is False else 'error'} {detail}", flush=True)
+
+    rthreads = []
+    sem = threading.Semaphore(max(1, args.jobs))
+
+    def guarded(r):
+        with sem:
+            do_replay(r)
+
+    for r in cands:
+        t = threading.Thread(target=guarded, args=(r,))
+        t.start()
+        rthreads.append(t)
+    for t in rthreads:
+        t.join()
+    for r in cands:
+        ok, detail = r.replay["reproduced"], r.replay["detail"]
         if ok is True:
             e = match_known(known, pid, r)
             if e is not None:
